@@ -70,9 +70,6 @@ func (p *process) Invoke(msgs []Envelope) {
 		// If we recovered, we buffer up all the messages that we could not process
 		// so we can retry them on the next restart.
 		if v := recover(); v != nil {
-			p.context.message = Stopped{}
-			p.context.receiver.Receive(p.context)
-
 			p.mbuffer = make([]Envelope, nmsg-nproc)
 			for i := 0; i < nmsg-nproc; i++ {
 				p.mbuffer[i] = msgs[i+nproc]
@@ -121,8 +118,6 @@ func (p *process) Start() {
 	p.context.receiver = recv
 	defer func() {
 		if v := recover(); v != nil {
-			p.context.message = Stopped{}
-			p.context.receiver.Receive(p.context)
 			p.tryRestart(v)
 		}
 	}()
@@ -149,6 +144,7 @@ func (p *process) tryRestart(v any) {
 	// back up. NOTE: not sure if that is the best option. What if that
 	// node never comes back up again?
 	if msg, ok := v.(*InternalError); ok {
+		p.stopReceiver()
 		slog.Error(msg.From, "err", msg.Err)
 		time.Sleep(p.Opts.RestartDelay)
 		p.Start()
@@ -156,7 +152,8 @@ func (p *process) tryRestart(v any) {
 	}
 	stackTrace := cleanTrace(debug.Stack())
 	// If we reach the max restarts, we shutdown the inbox and clean
-	// everything up.
+	// everything up. The failed receiver gets its (one and only) Stopped
+	// from cleanup, after its children have been stopped.
 	if p.restarts == p.MaxRestarts {
 		p.context.engine.BroadcastEvent(ActorMaxRestartsExceededEvent{
 			PID:       p.pid,
@@ -166,6 +163,7 @@ func (p *process) tryRestart(v any) {
 		return
 	}
 
+	p.stopReceiver()
 	p.restarts++
 	// Restart the process after its restartDelay
 	p.context.engine.BroadcastEvent(ActorRestartedEvent{
@@ -177,6 +175,13 @@ func (p *process) tryRestart(v any) {
 	})
 	time.Sleep(p.Opts.RestartDelay)
 	p.Start()
+}
+
+// stopReceiver tells the failed receiver that it is stopped before it
+// gets replaced by a fresh one.
+func (p *process) stopReceiver() {
+	p.context.message = Stopped{}
+	p.context.receiver.Receive(p.context)
 }
 
 func (p *process) cleanup(cancel context.CancelFunc) {
